@@ -171,7 +171,8 @@ def native(repo, cache, triples, harness_dir):
     subprocess.run(["rsync", "-a", "--delete", "--exclude", "target", "--exclude", "Cargo.lock", harness_dir + "/", crate + "/"], check=True)
     if repo != "/repo":
         ct = os.path.join(crate, "Cargo.toml")
-        open(ct, "w").write(open(ct).read().replace('"/repo/', '"%s/' % repo))
+        txt = open(ct).read().replace('"/repo/', '"%s/' % repo)
+        open(ct, "w").write(txt)
     lock = os.path.join(repo, "Cargo.lock")
     if os.path.exists(lock):
         subprocess.run(["cp", lock, os.path.join(crate, "Cargo.lock")])
